@@ -10,7 +10,7 @@ import z3
 
 from pyvc import contract as C
 from pyvc.contract import Contract, LoopSpec, register, schema
-from pyvc.values import TAddr, TBool, TDict, TInt, TList, TReal, TStr, TStruct, TVal, ValS
+from pyvc.values import TAddr, TBool, TDict, TInt, TList, TOpt, TReal, TStr, TStruct, TVal, ValS
 
 ARR = TAddr("arr", TVal)
 DATA = TDict(TStr, ARR)  # StrKeyMapping of arrays
@@ -65,6 +65,39 @@ def matches(c, data, stored, heap, tol):
     return z3.If(tol == 0, content_eq(data, stored, heap, heap), within_tol(dict_term(data), dict_term(stored), heap, tol))
 
 
+# abstract *content* of a dict of arrays: name -> optional array content (what hashing/comparison see) ----
+OV = TOpt(TVal)
+HEAPS = z3.ArraySort(z3.IntSort(), ValS)
+CONTENT = z3.ArraySort(TStr.sort(), OV.sort())
+contf = z3.Function("content_of", z3.ArraySort(TStr.sort(), z3.BoolSort()), z3.ArraySort(TStr.sort(), z3.IntSort()), HEAPS, CONTENT)
+hashf = z3.Function("hash_data", CONTENT, z3.IntSort())  # uninterpreted: collisions allowed
+wtol = z3.Function("within_tol_c", CONTENT, CONTENT, z3.RealSort(), z3.BoolSort())
+
+
+def cont_axiom():
+    """Definition of ``content_of`` (pointwise); equality of contents is array extensionality."""
+    m = z3.Const("m!ct", z3.ArraySort(TStr.sort(), z3.BoolSort()))
+    v = z3.Const("v!ct", z3.ArraySort(TStr.sort(), z3.IntSort()))
+    h = z3.Const("h!ct", HEAPS)
+    k = kq("k!ct")
+    return z3.ForAll([m, v, h, k], contf(m, v, h)[k] == z3.If(m[k], OV.dt.some(h[v[k]]), OV.dt.none), patterns=[contf(m, v, h)[k]])
+
+
+def cont(d, heap):
+    """Content of a dict view in a heap."""
+    return contf(d.member, d.vals, heap)
+
+
+def cont_t(term, heap):
+    """Content of an embedded DATA term."""
+    return contf(DATA.acc(0)(term), DATA.acc(1)(term), heap)
+
+
+def matches_c(ci, cs, tol):
+    """'the probe content ci hits the stored content cs' (compare_dict_of_arrays on contents)."""
+    return z3.If(tol == 0, ci == cs, wtol(ci, cs, tol))
+
+
 def heap_preserved(c):
     """Allocation only: every previously allocated address keeps its content."""
     a = z3.Int("a!hp")
@@ -84,7 +117,11 @@ class CompareDictOfArrays(Contract):
 
     def ensures(self, c):
         h = c.old_sym("arr", ValS)
-        return [("value", c.result == matches(c, c.old.dict_of_arrays, c.old.other_dict_of_arrays, h, c.old.tolerance))]
+        a, b, tol = c.old.dict_of_arrays, c.old.other_dict_of_arrays, c.old.tolerance
+        return [("value", c.result == matches(c, a, b, h, tol)),
+                # the same statement on abstract contents (tolerance 0: extensionality; otherwise the closeness predicate is a
+                # function of the two contents and the tolerance)
+                ("value-on-contents", c.result == matches_c(cont(a, h), cont(b, h), tol))]
 
 
 @register
